@@ -155,6 +155,9 @@ theorem marks_offending_line (path text msg : List Char) (n : Nat) (outcome : Li
   refine ⟨(fileLines text)[n - 1], List.getElem?_eq_getElem hlt, ?_⟩
   simp only [main, Bool.not_true, Bool.false_eq_true, if_false, ho, hn, List.getElem?_eq_getElem hlt, excerpt]
 
+/-- obligation on the regenerated literal: the tool shows at least the marked line itself (`LINE_CONTEX_LENGTH` is positive in the source) -/
+theorem context_positive : 0 < contextLength := by decide
+
 /-- the lines shown above are the ones right above line `idx + 1`, in file order: `before` followed by the line itself and `after` is a
 contiguous stretch of the file -/
 theorem excerpt_contiguous (lines : List (List Char)) (idx : Nat) (l : List Char) (h : lines[idx]? = some l) :
@@ -164,31 +167,33 @@ theorem excerpt_contiguous (lines : List (List Char)) (idx : Nat) (l : List Char
     · exact h'
     · rw [List.getElem?_eq_none h'] at h; cases h
   have hl : lines[idx] = l := by rw [List.getElem?_eq_getElem hlt] at h; exact Option.some.inj h
-  unfold before after contextLength
+  unfold before after
+  have hk0 : 0 < contextLength := context_positive
+  generalize contextLength = k at hk0 ⊢
   apply List.ext_getElem?
   intro i
   simp only [List.getElem?_append, List.length_take, List.length_drop, List.getElem?_take, List.getElem?_drop, List.getElem?_cons]
-  have e1 : min (idx - (idx - 3)) (lines.length - (idx - 3)) = idx - (idx - 3) := by omega
+  have e1 : min (idx - (idx - k)) (lines.length - (idx - k)) = idx - (idx - k) := by omega
   rw [e1]
-  by_cases hi : i < idx - (idx - 3)
-  · have : i < min (idx + 3) lines.length - (idx - 3) := by omega
+  by_cases hi : i < idx - (idx - k)
+  · have : i < min (idx + k) lines.length - (idx - k) := by omega
     simp [hi, this]
   · simp only [hi, if_false]
-    by_cases hi0 : i - (idx - (idx - 3)) = 0
-    · have : i < min (idx + 3) lines.length - (idx - 3) := by omega
-      have e : idx - 3 + i = idx := by omega
+    by_cases hi0 : i - (idx - (idx - k)) = 0
+    · have : i < min (idx + k) lines.length - (idx - k) := by omega
+      have e : idx - k + i = idx := by omega
       simp [hi0, this, e, h]
     · simp only [hi0, if_false]
-      by_cases hk : i - (idx - (idx - 3)) - 1 < min (idx + 3) lines.length - (idx + 1)
-      · have : i < min (idx + 3) lines.length - (idx - 3) := by omega
-        have e : idx + 1 + (i - (idx - (idx - 3)) - 1) = idx - 3 + i := by omega
+      by_cases hk : i - (idx - (idx - k)) - 1 < min (idx + k) lines.length - (idx + 1)
+      · have : i < min (idx + k) lines.length - (idx - k) := by omega
+        have e : idx + 1 + (i - (idx - (idx - k)) - 1) = idx - k + i := by omega
         simp [hk, this, e]
-      · have : ¬ i < min (idx + 3) lines.length - (idx - 3) := by omega
+      · have : ¬ i < min (idx + k) lines.length - (idx - k) := by omega
         simp [hk, this]
 
-/-- every context line is indented by four blanks, so only the offending line starts with `--> ` -/
+/-- every context line is indented by the tool's blanks (four in the pinned source), so only the offending line starts with the marker -/
 theorem context_indented (lines : List (List Char)) (idx : Nat) :
-    ∀ x ∈ (before lines idx).map indent ++ (after lines idx).map indent, ∃ y, x = ' ' :: ' ' :: ' ' :: ' ' :: y := by
+    ∀ x ∈ (before lines idx).map indent ++ (after lines idx).map indent, ∃ y, x = List.replicate Generated.cliIndentWidth ' ' ++ y := by
   intro x hx
   rcases List.mem_append.mp hx with hx | hx <;>
   · obtain ⟨y, _, rfl⟩ := List.mem_map.mp hx
